@@ -33,9 +33,13 @@ def anchors() -> Set[str]:
 
 def normalise(tree: ast.Module) -> None:
     _iso(tree)
+    inlined = False
     for _ in range(3):  # helpers calling helpers
         if not _inline_helpers(tree):
             break
+        inlined = True
+    if inlined:
+        _fold_constant_ifs(tree)  # a flag parameter bound to True/False at the call site
     _return_temp(tree)
     ast.fix_missing_locations(tree)
 
@@ -61,6 +65,24 @@ def _iso(tree: ast.Module) -> None:
             return node
 
     T().visit(tree)
+
+
+def _fold_constant_ifs(tree: ast.Module) -> None:
+    for holder in ast.walk(tree):
+        for fld in ("body", "orelse", "finalbody"):
+            body = getattr(holder, fld, None)
+            if not (isinstance(body, list) and body and isinstance(body[0], ast.stmt)):
+                continue
+            out: List[ast.stmt] = []
+            changed = False
+            for st in body:
+                if isinstance(st, ast.If) and isinstance(st.test, ast.Constant):
+                    out.extend(st.body if st.test.value else st.orelse)
+                    changed = True
+                else:
+                    out.append(st)
+            if changed:
+                setattr(holder, fld, out or [ast.copy_location(ast.Pass(), body[0])])
 
 
 def _return_temp(tree: ast.Module) -> None:
